@@ -46,7 +46,8 @@ type Interp struct {
 	Prog       *load.Program
 	funcs      map[types.Object]funcInfo
 	live       Node
-	logs       []map[*Cell]Value // write logs of the enclosing symbolic branches
+	logs       []map[*Cell]Value      // write logs of the enclosing symbolic branches
+	forced     map[*ast.IndexExpr]int // index expressions pinned to one element while a symbolic-index store is expanded
 	frames     []*frame
 	ctl        []*loopCtl // enclosing breakable statements of all activations (innermost last)
 	ctlBase    int        // first entry of ctl that belongs to the current function activation
@@ -95,6 +96,55 @@ func (in *Interp) fail(n ast.Node, f string, a ...interface{}) {
 
 func (in *Interp) fr() *frame        { return in.frames[len(in.frames)-1] }
 func (in *Interp) info() *types.Info { return in.fr().pkg.TypesInfo }
+
+// symbolicIndexIn finds, in an assignment target such as t[i].f or (*p).t[i], the slice/array index expression whose
+// index is not a constant on the executing paths; returns it with the index value and the table length.
+func (in *Interp) symbolicIndexIn(l ast.Expr) (*ast.IndexExpr, *Bits, int) {
+	for e := l; e != nil; {
+		switch x := e.(type) {
+		case *ast.ParenExpr:
+			e = x.X
+		case *ast.SelectorExpr:
+			if sel, ok := in.info().Selections[x]; !ok || sel.Kind() != types.FieldVal {
+				return nil, nil, 0
+			}
+			e = x.X
+		case *ast.StarExpr:
+			e = x.X
+		case *ast.IndexExpr:
+			if _, isMap := in.info().TypeOf(x.X).Underlying().(*types.Map); isMap {
+				return nil, nil, 0
+			}
+			idx, ok := in.expr(x.Index).(*Bits)
+			if !ok {
+				return nil, nil, 0
+			}
+			if _, isConst := in.constLive(idx); isConst {
+				e = x.X
+				continue
+			}
+			var base Value
+			if in.addressable(x.X) {
+				base = in.lvalue(x.X).V
+			} else {
+				base = in.expr(x.X)
+			}
+			if p, ok := base.(*Ptr); ok {
+				base = p.To.V
+			}
+			switch b := base.(type) {
+			case *Array:
+				return x, idx, len(b.E)
+			case *Slice:
+				return x, idx, b.Len()
+			}
+			return nil, nil, 0
+		default:
+			return nil, nil, 0
+		}
+	}
+	return nil, nil, 0
+}
 
 // store writes a cell, recording the old value in the innermost branch log.
 func (in *Interp) store(c *Cell, v Value) {
@@ -804,7 +854,33 @@ func (in *Interp) assignStmt(x *ast.AssignStmt) {
 			}
 		}
 		t := info.TypeOf(l)
-		in.store(in.lvalue(l), Copy(in.toType(v, from, t)))
+		nv := Copy(in.toType(v, from, t))
+		// table[i]… = v with a symbolic i: every element k receives ite(i == k, v, old) (an index that can be out of
+		// range on an executing path is a run-time panic there)
+		if ix, idx, n := in.symbolicIndexIn(l); ix != nil {
+			oor := in.D.M.Not(in.D.Cmp(token.LSS, idx, in.D.Const(int64(n), idx.W, idx.Signed)))
+			if idx.Signed {
+				oor = in.D.M.Or(oor, in.D.Cmp(token.LSS, idx, in.D.Const(0, idx.W, true)))
+			}
+			if w := in.D.M.And(in.live, oor); w != False {
+				panic(Panic{Why: fmt.Sprintf("%s: index out of range [0,%d) for some values", in.pos(ix), n), Cond: w})
+			}
+			if in.forced == nil {
+				in.forced = map[*ast.IndexExpr]int{}
+			}
+			for k := 0; k < n; k++ {
+				c := in.D.Cmp(token.EQL, idx, in.D.Const(int64(k), idx.W, idx.Signed))
+				if in.D.M.And(in.live, c) == False {
+					continue
+				}
+				in.forced[ix] = k
+				cell := in.lvalue(l)
+				delete(in.forced, ix)
+				in.store(cell, in.ite(c, Copy(nv), cell.V))
+			}
+			return
+		}
+		in.store(in.lvalue(l), nv)
 	}
 	setTo := func(l ast.Expr, v Value) { setToT(l, v, nil) }
 	if len(x.Lhs) > 1 && len(x.Rhs) == 1 {
@@ -984,13 +1060,19 @@ func (in *Interp) lvalue(e ast.Expr) *Cell {
 			}
 			return c
 		}
-		idx, ok := in.expr(x.Index).(*Bits)
-		if !ok {
-			in.fail(x, "index is not an integer")
-		}
-		k, isConst := in.constLive(idx)
-		if !isConst {
-			in.fail(x, "store/address through a symbolic index")
+		var k int64
+		if fk, forced := in.forced[x]; forced {
+			k = int64(fk)
+		} else {
+			idx, ok := in.expr(x.Index).(*Bits)
+			if !ok {
+				in.fail(x, "index is not an integer")
+			}
+			var isConst bool
+			k, isConst = in.constLive(idx)
+			if !isConst {
+				in.fail(x, "store/address through a symbolic index")
+			}
 		}
 		switch b := base.(type) {
 		case *Array:
@@ -1181,6 +1263,7 @@ func (in *Interp) Try(f func()) (err error) {
 			in.ctl = nil
 			in.ctlBase = 0
 			in.depth = 0
+			in.forced = nil
 		}
 	}()
 	f()
